@@ -403,7 +403,8 @@ ALLWIN = [(a, b) for a in range(4) for b in range(4)]
 def shard_specs(ctx):
     """The work list: every spec is expanded into cases inside a worker process (deterministically from the
     spec, which carries its own seed derived from ctx.rng)."""
-    big = ctx.thorough or ctx.escalated()
+    frac = float(os.environ.get("C09_SPEC_FRACTION", "1") or 1)
+    big = (ctx.thorough or ctx.escalated()) and frac >= 1
     specs = []
     g1 = 8 if big else 6
     n1 = sum(1 for _ in disjoint_rows(5, g1))
@@ -425,11 +426,10 @@ def shard_specs(ctx):
         specs.append(("malformed", 500, ctx.rng.getrandbits(32)))
     # developer knob for bug-detection trials on a loaded machine: keep only a fraction of the exhaustive
     # shards (never set by bin/check; recorded in the evidence when used)
-    frac = float(os.environ.get("C09_SPEC_FRACTION", "1") or 1)
     if frac < 1:
         sub = random.Random(ctx.seed)
         specs = [s for s in specs if sub.random() < (frac if s[0] == "exh" else min(1.0, 5 * frac))]
-        ctx.notes.append("C09_SPEC_FRACTION=%s: exhaustive shards subsampled" % frac)
+        ctx.notes.append("C09_SPEC_FRACTION=%s: shards subsampled, no escalation (developer trial run)" % frac)
     return specs
 
 
